@@ -79,7 +79,8 @@ def _build(d):
     if k == 5:
         n = d.int(1, 30)
         return {'k': 'XNPV', 'r': _rate(d), 'flows': _flows(d, n),
-                'dates': _dates(d, n), 'mode': mode}
+                'dates': _dates(d, n), 'mode': mode,
+                'orient': d.choice(['cc', 'cc', 'rr', 'rc', 'cr'])}
     n = d.int(1, 12)
     root = d.choice([0.05, 0.1, 0.2, 0.5, 1.0, 0.01, 2.0, 5.0, 10.0]) \
         if d.pick(2) else d.int(1, 1000) / 100.0
@@ -87,9 +88,11 @@ def _build(d):
     if not any(rets):
         rets[-1] = 100.0
     if k in (6, 7):
-        return {'k': 'IRR', 'root': root, 'returns': rets, 'mode': mode}
+        return {'k': 'IRR', 'root': root, 'returns': rets, 'mode': mode,
+                'orient': d.choice(['c', 'c', 'r'])}
     return {'k': 'XIRR', 'root': root, 'returns': rets,
-            'dates': _dates(d, n + 1), 'mode': mode}
+            'dates': _dates(d, n + 1), 'mode': mode,
+            'orient': d.choice(['cc', 'cc', 'rr', 'rc', 'cr'])}
 
 
 def _dates(d, n):
@@ -172,6 +175,19 @@ def _rng(col, n):
     return '%s1:%s%d' % (c, c, n)
 
 
+def _place(values, orient, slot):
+    """cells + range text + call argument for a vector laid out as a
+    column ('c') or a row ('r'); slot 0/1 keeps two vectors apart."""
+    if orient == 'c':
+        cells = _col_cells(values, col=slot)
+        return cells, _rng(slot, len(values)), [[v] for v in values]
+    row = 40 + slot
+    cells = {'Sheet1!%s%d' % (num_to_col(i + 1), row): v
+             for i, v in enumerate(values)}
+    return (cells, 'A%d:%s%d' % (row, num_to_col(len(values)), row),
+            [list(values)])
+
+
 def _fail(res, bucket, want, o, note):
     if o[0] == 'X':
         bucket = 'exception:%s:%s' % (bucket.split(':')[0], o[1])
@@ -191,8 +207,9 @@ def judge(case):
             o = lib.call_fn('NPV', r, *flows)
             note = ['NPV', r] + flows
         else:
-            note = '=NPV(%r,%s)' % (r, _rng(0, len(flows)))
-            o = lib.eval_formula(note, _col_cells(flows), addr='Sheet1!H1')[0]
+            cells, rtxt, _ = _place(flows, 'r' if len(flows) % 2 else 'c', 0)
+            note = '=NPV(%r,%s)' % (r, rtxt)
+            o = lib.eval_formula(note, cells, addr='Sheet1!Z99')[0]
         res.nontrivial = r != 0 and len(flows) >= 3
         if not relclose(o, want, scale=scale):
             _fail(res, 'NPV:%s' % ('rate0' if r == 0 else 'value'), want, o,
@@ -203,18 +220,22 @@ def judge(case):
         want = xnpv(r, flows, dates)
         scale = math.fsum(abs(c) / (1 + r) ** ((t - dates[0]) / 365.0)
                           for c, t in zip(flows, dates))
-        cells = _col_cells(flows)
-        cells.update(_col_cells(dates, col=1))
-        note = '=XNPV(%r,%s,%s)' % (r, _rng(0, len(flows)),
-                                     _rng(1, len(flows)))
+        orient = case.get('orient', 'cc')
+        c1, r1, a1 = _place(flows, orient[0], 0)
+        c2, r2, a2 = _place(dates, orient[1], 1)
+        cells = dict(c1)
+        cells.update(c2)
+        note = '=XNPV(%r,%s,%s)' % (r, r1, r2)
         if case['mode'] == 'call':
-            o = lib.call_fn('XNPV', r, [[c] for c in flows],
-                            [[t] for t in dates])
+            o = lib.call_fn('XNPV', r, a1, a2)
         else:
-            o = lib.eval_formula(note, cells, addr='Sheet1!H1')[0]
+            o = lib.eval_formula(note, cells, addr='Sheet1!Z99')[0]
+        res.labels += ('orient:' + orient,)
         res.nontrivial = r != 0 and len(flows) >= 3
         if not relclose(o, want, scale=scale):
-            _fail(res, 'XNPV:value', want, o, note)
+            _fail(res, 'XNPV:value:%s' % ('same-orientation' if orient[0]
+                                          == orient[1] else
+                                          'mixed-orientation'), want, o, note)
         return res
     if k == 'LIN':
         return _linear(case, res)
@@ -312,12 +333,12 @@ def _irr(case, res):
     if k == 'IRR':
         c0 = -math.fsum(c / (1 + root) ** (i + 1) for i, c in enumerate(rets))
         flows = [c0] + rets
-        cells = _col_cells(flows)
-        note = '=IRR(%s)' % _rng(0, len(flows))
+        cells, rtxt, arg = _place(flows, case.get('orient', 'c'), 0)
+        note = '=IRR(%s)' % rtxt
         if case['mode'] == 'call':
-            o = lib.call_fn('IRR', [[c] for c in flows])
+            o = lib.call_fn('IRR', arg)
         else:
-            o = lib.eval_formula(note, cells, addr='Sheet1!H1')[0]
+            o = lib.eval_formula(note, cells, addr='Sheet1!Z99')[0]
 
         def resid(x):
             return math.fsum(c / (1 + x) ** i for i, c in enumerate(flows))
@@ -327,14 +348,16 @@ def _irr(case, res):
         c0 = -math.fsum(c / (1 + root) ** ((t - t0) / 365.0)
                         for c, t in zip(rets, dates[1:]))
         flows = [c0] + rets
-        cells = _col_cells(flows)
-        cells.update(_col_cells(dates, col=1))
-        note = '=XIRR(%s,%s)' % (_rng(0, len(flows)), _rng(1, len(flows)))
+        orient = case.get('orient', 'cc')
+        c1, r1, a1 = _place(flows, orient[0], 0)
+        c2, r2, a2 = _place(dates, orient[1], 1)
+        cells = dict(c1)
+        cells.update(c2)
+        note = '=XIRR(%s,%s)' % (r1, r2)
         if case['mode'] == 'call':
-            o = lib.call_fn('XIRR', [[c] for c in flows],
-                            [[t] for t in dates])
+            o = lib.call_fn('XIRR', a1, a2)
         else:
-            o = lib.eval_formula(note, cells, addr='Sheet1!H1')[0]
+            o = lib.eval_formula(note, cells, addr='Sheet1!Z99')[0]
 
         def resid(x):
             return math.fsum(c / (1 + x) ** ((t - t0) / 365.0)
